@@ -165,13 +165,29 @@ def circle_is_ellipse(prog, rep):
     ok = c_ne is not None and c_ne == cond_poly(("lt", add(mul(b, x2), mul(a, y2)), th))
     rep.check(ok, "R18.2", "EllipseContains::contains:general-case", "otherwise b*x^2 + a*y^2 < threshold; found %s" % (c_ne,), at=co.span, fn=co.path)
     # centre formula: two copies, compared with everything inlined
-    ce = prog.method1(PRIM + "ellipse::Ellipse", "center_2x", None)
     cc = prog.method1(PRIM + "circle::Circle", "center_2x", None)
+    ces = [f for f in prog.fns.values() if f.body and f.name == "center_2x" and f.impl and prog.impls[f.impl]["self_ty"].get("adt") == PRIM + "ellipse::Ellipse"]
+    if not ces:
+        # no Ellipse::center_2x method (inlined at its call sites): the free ellipse::center_2x(top_left, size) carries
+        # the formula; R05.1 compares every use of the doubled centre with it
+        free = prog.by_path.get(PRIM + "ellipse::center_2x", [])
+        okf = False
+        if len(free) == 1:
+            try:
+                ss = Pall.of(free[0])
+                tlp, szp = P(1, "top_left"), P(2, "size")
+                okf = all(sm.ret[0] == "agg" and len(sm.ret[2]) == 2 and all(nf(sm.ret[2][i]) is not None and nf(sm.ret[2][i]) == nf(add(mul(("field", tlp, i), C_(2)), ("call", "core::num::<impl u32>::saturating_sub", (), (("field", szp, i), C_(1))))) for i in (0, 1)) for sm in ss)
+            except Unsupported:
+                okf = False
+        rep.check(okf, "R18.2", "center_2x", "the ellipse's doubled centre must be top_left*2 + (size - 1) per axis (saturating)", at=cc.span, fn=cc.path)
+        ce = None
+    else:
+        ce = ces[0]
     me = P(1, "self")
     tl = lambda i: ("field", ("field", me, 0), i)
     ssub = lambda x: ("call", "core::num::<impl u32>::saturating_sub", (), (x, C_(1)))
     bad = []
-    for f_, ext in ((ce, lambda i: ("field", ("field", me, 1), i)), (cc, lambda i: ("field", me, 1))):
+    for f_, ext in ([(ce, lambda i: ("field", ("field", me, 1), i))] if ce is not None else []) + [(cc, lambda i: ("field", me, 1))]:
         try:
             ss = Pall.of(f_)
         except Unsupported as e:
@@ -184,7 +200,7 @@ def circle_is_ellipse(prog, rep):
                 if comps is None or nf(comps[i]) is None or nf(comps[i]) != nf(add(mul(tl(i), C_(2)), ssub(ext(i)))):
                     bad.append("%s gives %s" % (f_.path.split("::")[-2], show(canon(r), maxd=5)))
                     break
-    rep.check(not bad, "R18.2", "center_2x", "both doubled centres must be top_left*2 + (size - 1) per axis (saturating): %s" % "; ".join(bad[:2]), at=ce.span, fn=ce.path)
+    rep.check(not bad, "R18.2", "center_2x" if ce is not None else "center_2x:circle", "both doubled centres must be top_left*2 + (size - 1) per axis (saturating): %s" % "; ".join(bad[:2]), at=(ce or cc).span, fn=(ce or cc).path)
     rep.sample({"rule": "R18.2", "ellipse_test_circle_case": str(c_eq), "ellipse_test_general_case": str(c_ne)})
 
 
